@@ -505,6 +505,10 @@ pub fn gen(seed: u64, count: usize, tier: &str, params: &Params) -> Vec<Value> {
                 let nq = if pair || rng.chance(1, 2) { rng.below(if tier == "thorough" { 12 } else { 5 }) as usize } else { 1 };
                 let mut qs: Vec<Value> = (0..nq).map(|_| random_q(&mut rng, shape[axis])).collect();
                 if nq >= 2 && rng.chance(1, 3) { let d = qs[0].clone(); qs.push(d); }
+                // special request sets: only the two improper quantiles (in any order, with repeats), or one q repeated
+                if nq >= 2 && rng.chance(1, 8) { qs = (0..nq).map(|k| if (k + rng.below(2) as usize) % 2 == 0 { json!({"a": 0, "b": 1, "u": 0}) } else { json!({"a": 1, "b": 1, "u": 0}) }).collect();
+                                                 qs[0] = json!({"a": 1, "b": 1, "u": 0}); qs[1] = json!({"a": 0, "b": 1, "u": 0}); }
+                else if nq >= 2 && rng.chance(1, 10) { let d = qs[0].clone(); qs = vec![d; nq]; }
                 let api = if nd == 1 && rng.chance(1, 2) { if nq == 1 && rng.chance(1, 2) { "1d_single" } else { "1d_bulk" } }
                           else if nq == 1 && rng.chance(1, 2) { "axis_single" } else { "axis_bulk" };
                 let script: Vec<i64> = if rng.chance(1, 3) { (0..rng.below(6)).map(|_| rng.below(1000) as i64).collect() } else { vec![] };
